@@ -566,6 +566,17 @@ def _entries(ev):
     return ents
 
 
+def readout_part(qc, preplen, lst, N):
+    """the readout circuit as it was actually appended to the preparation circuit: gates after the preparation prefix (measurements dropped), mapped back
+    from the measured qubits to 0..m-1.  Independent of the (private) metadata object."""
+    gates, _ = impl.split_measure(impl.gates_of(qc))
+    pos = {q: i for i, q in enumerate(lst if lst is not None else range(N))}
+    out = []
+    for name, a, b in gates[preplen:]:
+        out.append([name, pos.get(a, -1), pos.get(b, -1) if b >= 0 else -1])
+    return out
+
+
 def tomo_phase_b(job):
     """job additionally has "counts": [dict per circuit] (exact statistics computed by the spec).
     -> {"values": entries of the family fitter, "per_circuit": [entries of circuit i], "ro": [...], "dm_ok", "exc"}"""
@@ -590,7 +601,7 @@ def tomo_phase_b(job):
         for i, qc in enumerate(circs):
             f = T.StabilizerMeasurementFitter(FakeResult(counts), qc, result_index=i) if len(counts) > 1 else T.StabilizerMeasurementFitter(FakeResult(counts[0]), qc)
             out["per_circuit"].append(_entries(f.expectation_values(full_hilbert_space=full)))
-            out["ro"].append(impl.gates_of(qc.metadata["readout info"].circuit))
+            out["ro"].append(readout_part(qc, len(impl.gates_of(impl.circuit_from_gates(job["N"], job["comps"][0][1]))), job["list"], job["N"]))
         # the only floating point step: rho = 2^-n sum <P> P (cross-checked numerically, outside the spec)
         if job.get("dm") and (job["N"] if full else job["m"]) <= 5:
             rho = fitter.density_matrix(full_hilbert_space=full)
@@ -618,7 +629,7 @@ def fitter_counts(job):
         qc = circs[job["index"] % len(circs)]
         f = T.StabilizerMeasurementFitter(FakeResult(dict(job["counts"])), qc)
         rec["values"] = _entries(f.expectation_values(full_hilbert_space=bool(job["full"])))
-        rec["ro"] = impl.gates_of(qc.metadata["readout info"].circuit)
+        rec["ro"] = readout_part(qc, len(impl.gates_of(impl.circuit_from_gates(job["N"], job.get("prep", [])))), job["list"], job["N"])
     except Exception as e:
         rec["exc"] = exc_name(e) + ": " + str(e)[:150]
     return rec
